@@ -4,7 +4,7 @@ SPEC = dict(
     driver='c19_allocfault',
     extra=['ref/ref.c', 'ref/ref_sig.c', 'ref/ref_pdu.c', 'ref/ref_pki.c', 'simnet.c'],
     level='fault_enumeration',
-    rule='Catalogue of 78 operations over all modules (context create / configure; KSI_Signature_parse and parseWithPolicy(EMPTY) of 6 signature forms; '
+    rule='Catalogue of 79 operations over all modules (context create / configure; KSI_Signature_parse and parseWithPolicy(EMPTY) of 6 signature forms; '
          'KSI_SignatureVerifier_verify under the internal, calendar, key, publications-file, user-publication and general policy with a matching anchor, '
          'KSI_verifySignature / KSI_verifyDataHash with the context\'s own anchors, KSI_Signature_verifyWithPolicy helper; serialize, clone, identity, getters; aggregation / extension PDU parse + HMAC check, '
          'aggregation response -> signature; sign / extend request construction; blocking signing over TCP and HTTP (PDU v2 and v1, with level, with debug logging switched on), aggregator configuration request; extendTo / extend with record / head / '
@@ -20,8 +20,8 @@ SPEC = dict(
          'or reports success with exactly the fault-free result; a sentinel (parse + internal verification + serialization of a known good signature) on the same context gives '
          'the fault-free result; the same operation repeated without a fault on the same context and setup objects gives the fault-free return code and result; after freeing '
          'every returned object, the setup objects and the context no SDK allocation and no HTTP transfer handle is live.',
-    bounds=dict(quick='78 operations; every single fault index where N <= 400, every ceil(N/400)-th index beyond (stride 2 for N up to 800, 5 for three async requests, 6-7 for the block signer); no pairs',
-                thorough='78 operations; every single fault index 1..N (largest N about 2400, limit 5000: no operation is strided); all pairs i<j for the operations with N <= 60'),
+    bounds=dict(quick='79 operations; every single fault index where N <= 400, every ceil(N/400)-th index beyond (stride 2 for N up to 800, 5 for three async requests, 6-7 for the block signer); no pairs',
+                thorough='79 operations; every single fault index 1..N (largest N about 2400, limit 5000: no operation is strided); all pairs i<j for the operations with N <= 60'),
     technique='exhaustive allocation-fault enumeration (single faults, and fault pairs for small operations) on the real compiled code under ASan/UBSan with a counting allocator funnel and live-block accounting',
     level_text='Every allocation index of every catalogue operation is failed in turn on the real code, from an identical fresh state, under ASan + restricted UBSan with exact '
                'accounting of live SDK blocks; return code, result equality, leak freedom, context usability and repeatability are checked after every injection. This is exhaustive '
